@@ -41,7 +41,13 @@ pub fn prop_info(prop: &str) -> PropInfo {
 
 pub fn run_shard(prop: &str, tier: &str, seed: u64, shard: u64, budget: Duration, max_iters: u64) -> ShardReport {
     let shard_seed = seed.wrapping_mul(0x9E37_79B9_7F4A_7C15) ^ (shard + 1).wrapping_mul(0xD1B5_4A32_D192_ED03) ^ fx(prop);
-    let _ = tier;
+    if tier == "miri" {
+        if let Some(c) = props::miri_by_name(prop) {
+            return crate::campaign::run_campaign(c.as_ref(), shard_seed, budget, max_iters);
+        }
+        eprintln!("no Miri campaign for {prop}");
+        std::process::exit(2)
+    }
     if let Some(c) = props::by_name(prop) {
         return crate::campaign::run_campaign(c.as_ref(), shard_seed, budget, max_iters);
     }
